@@ -3,6 +3,8 @@ package props
 import (
 	"bytes"
 	"encoding/hex"
+	"encoding/json"
+	"encoding/pem"
 	"fmt"
 	"net/url"
 	"strings"
@@ -249,12 +251,13 @@ func TestC03(t *testing.T) {
 		"dup-member-after", "dup-member-before", "dup-exact-after", "dup-exact-before", "dup-signature-after", "dup-signature-before", "extra-unknown-member", "signature-hex-case", "signature-key-case",
 		"wrong-id", "wrong-version", "empty-levels", "missing-member", "missing-signature", "signature-short", "signature-not-hex",
 		"header-missing", "header-empty", "header-two-values", "header-one-cert", "header-three-certs", "header-wrong-pem-type", "header-not-escaped", "header-swapped-order", "header-other-key-case",
+		"signed-omits-field-unsigned-supplies-it", "signed-omits-field-unsigned-supplies-it", "signer-clones-issuer-and-serial-lookalike-root", "signer-clones-issuer-and-serial-genuine-root", "signer-clones-issuer-and-serial-bitflipped-genuine-cert",
 		"control-canonical",
 	}
 	gen.Prop(t, "alterations", gen.N(6000, 250000), func(t *rapid.T) {
 		k := rapid.SampledFrom(kinds).Draw(t, "kind")
 		alt := rapid.SampledFrom(alterations).Draw(t, "alteration")
-		w, _ := gen.DrawWorld(t, gen.WorldCfg{MaxAuth: 16, Simple: true, NoModule: true})
+		w, _ := gen.DrawWorld(t, gen.WorldCfg{MaxAuth: 16, Simple: true, NoModule: alt != "signed-omits-field-unsigned-supplies-it", ForceModule: alt == "signed-omits-field-unsigned-supplies-it" && k.name == "tcb"})
 		w.Build()
 		// Optionally the signed document is bad / good while the unsigned payload says the opposite.
 		signedBad := rapid.IntRange(0, 2).Draw(t, "signedBad")
@@ -347,6 +350,47 @@ func TestC03(t *testing.T) {
 		case "reencoded-escape":
 			re := bytes.Replace(signedRaw, []byte(`"id":"T`), []byte(`"id":"T`), 1)
 			resp.Body = gen.WrapBody(k.member, re, sigHex)
+		case "signed-omits-field-unsigned-supplies-it":
+			// the signed member lacks one field; an unsigned look-alike member offers a complete, favourable document
+			var m map[string]any
+			_ = json.Unmarshal(goodRaw, &m)
+			keys := []string{"tdxModuleIdentities", "id", "version", "tcbLevels", "fmspc", "pceId", "tdxModule", "nextUpdate"}
+			if k.name == "qe" {
+				keys = []string{"id", "version", "tcbLevels", "mrsigner", "isvprodid", "miscselect", "miscselectMask", "attributes", "attributesMask", "nextUpdate"}
+			}
+			drop := rapid.SampledFrom(keys).Draw(t, "dropped")
+			delete(m, drop)
+			partial, _ := json.Marshal(m)
+			psig := hex.EncodeToString(signer.Key.SignRaw(partial))
+			if rapid.Bool().Draw(t, "before") {
+				resp.Body = body(mem(variant(k.member), goodRaw), mem(k.member, partial), sigm("signature", psig))
+			} else {
+				resp.Body = body(mem(k.member, partial), mem(variant(k.member), goodRaw), sigm("signature", psig))
+			}
+			signedBad = 0
+			badDesc = "signed member lacks " + drop
+		case "signer-clones-issuer-and-serial-lookalike-root", "signer-clones-issuer-and-serial-genuine-root", "signer-clones-issuer-and-serial-bitflipped-genuine-cert":
+			// a forged signing certificate that copies the issuer name and the serial number of the OTHER
+			// document's genuine signer (so anything keyed on issuer+serial confuses the two)
+			other := w.PKI.TcbSig
+			if k.name == "tcb" {
+				other = w.PKI.QeSig
+			}
+			fake := gen.MakeCert(gen.CertSpec{CN: gen.CNTcbSigner, KeyLabel: "c03/clone-key", Serial: other.X.SerialNumber.Bytes(), NotBefore: gen.Wide.NotBefore, NotAfter: gen.Wide.NotAfter, CRLDP: []string{gen.RootCrlURL}}, pb.Root)
+			resp.Body = gen.SignedBody(k.member, signedRaw, fake.Key)
+			switch alt {
+			case "signer-clones-issuer-and-serial-lookalike-root":
+				resp.Header = map[string][]string{k.hdr: {gen.IssuerChainHeader(fake, pb.Root)}}
+			case "signer-clones-issuer-and-serial-genuine-root":
+				resp.Header = map[string][]string{k.hdr: {gen.IssuerChainHeader(fake, w.PKI.Root)}}
+			default:
+				// the genuine other signer's certificate with one bit of its signature flipped, body signed by that signer's key
+				der := append([]byte{}, other.DER...)
+				der[len(der)-3] ^= 0x01
+				pemB := pem.EncodeToMemory(&pem.Block{Type: "CERTIFICATE", Bytes: der})
+				resp.Header = map[string][]string{k.hdr: {url.QueryEscape(string(pemB) + string(w.PKI.Root.PEM))}}
+				resp.Body = gen.SignedBody(k.member, signedRaw, other.Key)
+			}
 		case "dup-member-after":
 			resp.Body = body(mem(k.member, signedRaw), mem(variant(k.member), unsignedRaw), sigm("signature", sigHex))
 		case "dup-member-before":
